@@ -142,6 +142,10 @@ func (rs *respSummary) errImpliesResponded(f *ssa.Function) bool {
 		if cst, isC := RetVal(ret, n-1).(*ssa.Const); isC && cst.Value == nil {
 			continue // success return
 		}
+		// the error handed back is the error of a callee that has already answered whenever it fails
+		if rs.errFromResponder(rs.p.TermOf(RetVal(ret, n-1))) {
+			continue
+		}
 		// this return must be unreachable without a write: search backwards = forward search restricted to paths ending here
 		reached := false
 		stop := func(in ssa.Instruction) bool { return false }
@@ -169,7 +173,10 @@ func (rs *respSummary) errImpliesResponded(f *ssa.Function) bool {
 			if written {
 				continue
 			}
-			for _, s := range it.b.Succs {
+			for k, s := range it.b.Succs {
+				if rs.sanitizedEdge(it.b, k) {
+					continue // error edge of a callee that answers on failure
+				}
 				if !seen[s] {
 					seen[s] = true
 					work = append(work, item{s, 0})
@@ -201,12 +208,27 @@ func (rs *respSummary) sanitizedEdge(b *ssa.BasicBlock, succ int) bool {
 	if et.Op == "const" {
 		et = rs.p.TermOf(cond.Y)
 	}
+	return rs.errFromResponder(et)
+}
+
+// errFromResponder: the error value is nil or the error result of a function that has written a
+// response whenever it returns a non-nil error.
+func (rs *respSummary) errFromResponder(et *Term) bool {
+	n := 0
 	for _, a := range et.Alts() {
-		if a.Op == "extract" && a.Args[0].Op == "call" && rs.errImpliesResponded(a.Args[0].Fn) {
-			return true
+		if a.Op == "const" && a.Name == "nil" {
+			continue
+		}
+		switch {
+		case a.Op == "extract" && a.Args[0].Op == "call" && rs.errImpliesResponded(a.Args[0].Fn):
+			n++
+		case a.Op == "call" && rs.errImpliesResponded(a.Fn):
+			n++
+		default:
+			return false
 		}
 	}
-	return false
+	return n > 0
 }
 
 func runC11(c *Ctx) {
